@@ -370,6 +370,7 @@ def rule_N2(ctx):
     bad = None
     dests, doms = set(), set()
     vectorised = False
+    by_iteration = False
     for e in acc:
         if len(e.args) != 1 or set(e.kwargs) - {"out", "axis"}:
             unrec("%s: accumulate called with %s" % (f.qualname, sorted(e.kwargs)))
@@ -380,6 +381,18 @@ def rule_N2(ctx):
             if ax not in (1, -1):
                 bad = bad or "accumulate over the whole array runs along axis %s, not along the grid axis" % ax
             dests.add(vkey(e.kwargs["out"]) if "out" in e.kwargs else vkey(Poly.atom(_event_atom(e))))
+            continue
+        if src is not None and src[0] == "elem" and src[1] == p0:
+            # `for row, out_row in zip(arg, dest)`: iterating a 2-D array yields its sample rows, every one of them
+            dk = A(e.kwargs["out"]) if "out" in e.kwargs else None
+            if dk is None or dk[0] != "elem":
+                unrec("%s: destination of the row accumulate (rows by iteration) not found" % f.qualname)
+            if "axis" in e.kwargs and const_int(vkey(e.kwargs["axis"])) not in (0, -1):
+                bad = bad or "accumulate on a 1-D row with axis=%s" % show(e.kwargs["axis"])
+            if dk[2] != src[2]:
+                bad = bad or "row %s of the source is accumulated into row %s of the destination" % (src[2], dk[2])
+            dests.add(dk[1])
+            by_iteration = True
             continue
         if src is None or src[0] != "sub" or src[1] != p0:
             unrec("%s: accumulate source %s is not a row of the argument" % (f.qualname, show(e.args[0])))
@@ -413,7 +426,7 @@ def rule_N2(ctx):
         doms.add(ra[1])
     ctx.check(bad is None, "N2", f.qualname + ": accumulate runs along the grid axis, source row i -> destination row i", f.where(acc[0].node), bad or "", construct=f.qualname, stmt="accumulate rows")
     # every row
-    if vectorised:
+    if vectorised or (by_iteration and not doms):
         ok, why = True, ""
     else:
         if len(doms) != 1:
